@@ -791,3 +791,64 @@ def r6i_locals_grow_only(ctx):
             r.ok(sample={"collector": f.id.split("::")[-1]})
     r.floor("local-variable collectors", n, 1)
     return r
+
+
+def r6k_declared_names_are_parameters(ctx):
+    r = Result("R6k", "the set of names the undeclared-fixture scan treats as declared (by role: the `&HashSet<String>` handed to a "
+                      "function that leads to the writer of the undeclared-fixture map) is filled only with literals, the "
+                      "function's own name and the names of its parameters: no function of this crate other than a parameter "
+                      "enumerator (returns the AST's `ArgWithDefault`s) lies in the backward slice of an inserted value. Names "
+                      "from marks (`usefixtures`) are requested by the test but are not names in its body: a body use of such a "
+                      "fixture stays an undeclared use")
+    from .r3 import _slice_calls
+    from ..facts import DbInfo
+    crate = ctx.bin
+    db = ctx.memo("dbinfo", lambda: DbInfo(ctx))
+    cg = ctx.callgraph()
+    um = db.maps_where(lambda k, v: "UndeclaredFixture" in v)
+    writers = {op.fn.root for m_ in um for op in db.ops_by_map.get(m_, []) if op.method in ("entry", "insert")}
+    n = 0
+    for f in crate.real_fns():
+        if "_serde::" in f.id or f.id.startswith("<"):
+            continue
+        sets = set()
+        for bb, c in f.calls():
+            g = crate.fns.get(c.get("res")) if c.get("res_local") else None
+            if g is None or g.root == f.root:
+                continue
+            for i, a in enumerate(c["args"]):
+                if i + 1 <= g.argc and re.match(r"^&std::collections::HashSet<std::string::String", g.local_ty(i + 1)) and \
+                        (cg.reach([g.id]) & writers):
+                    s0 = _set_root(f, a)
+                    if s0 is not None:
+                        sets.add(s0)
+        if not sets:
+            continue
+        for bb, c in f.calls():
+            if not re.search(r"HashSet::<T, S(, A)?>::insert$", c.get("res") or "") or len(c["args"]) < 2:
+                continue
+            if _set_root(f, c["args"][0]) not in sets:
+                continue
+            n += 1
+            calls = _slice_calls(crate, f, c["args"][1])
+            foreign = sorted(x.split("::")[-1] for x in calls if x in crate.fns and "ArgWithDefault" not in (crate.fns[x].ret or ""))
+            key = "R6k|%s|declared name computed by %s" % (f.root, ",".join(foreign))
+            if foreign:
+                r.violate(key, "%s adds to the declared names a value computed by %s (at %s): not a parameter of the function" % (
+                    f.root.split("::")[-1], foreign, crate.span_str(c["span"])))
+            else:
+                r.ok(sample={"in": f.root.split("::")[-1], "inserted": "literal / own name / parameter"} if len(r.samples) < 4 else None)
+    r.floor("insertions into the declared-names set", n, 2)
+    return r
+
+
+def _set_root(f, op, depth=0):
+    l = op_local(op)
+    if l is None or depth > 8:
+        return l
+    for d in f.whole_defs(l):
+        if d[0] == "assign" and d[3][0] == "ref":
+            return _set_root(f, ["cp", d[3][2]], depth + 1)
+        if d[0] == "assign" and d[3][0] == "use" and op_local(d[3][1]) is not None and not place_projs(op_place(d[3][1])):
+            return _set_root(f, d[3][1], depth + 1)
+    return l
